@@ -479,6 +479,20 @@ func probe(c *vcommon.Case, d *decoder, mode string, in []byte) (ok bool) {
 	accepted++
 	c.Count("accepted", 1)
 	c.Count("accepted:"+mode, 1)
+	// rendering an accepted message is outside the property: observed, never refuting
+	if len(in) <= 2048 {
+		func() {
+			defer func() {
+				if p := recover(); p != nil {
+					c.Count("string_panics:"+d.name, 1)
+				}
+			}()
+			if st, isStringer := o.msg.(fmt.Stringer); isStringer {
+				_ = st.String() // called directly: fmt would swallow a panicking String method
+				c.Count("rendered", 1)
+			}
+		}()
+	}
 	if d.encode == nil {
 		return true
 	}
@@ -576,6 +590,42 @@ func shortValid(c *vcommon.Case, d *decoder, max int) []byte {
 	return v
 }
 
+// pbMutate changes one field of a protobuf message consistently (the framing stays
+// well-formed): payload shortened / extended / emptied, field renumbered, varint replaced,
+// field dropped or duplicated; nested messages are mutated recursively.
+func pbMutate(r *vcommon.Rand, in []byte, depth int) []byte {
+	fs, err := wire.PbParse(in)
+	if err != nil || len(fs) == 0 {
+		return in
+	}
+	i := r.Intn(len(fs))
+	f := &fs[i]
+	switch {
+	case f.Wt == 2 && depth < 2 && len(f.Data) > 0 && r.Chance(1, 3):
+		f.Data = pbMutate(r, f.Data, depth+1)
+	case r.Chance(1, 8):
+		fs = append(fs[:i], fs[i+1:]...)
+	case r.Chance(1, 8):
+		fs = append(fs, fs[i])
+	case f.Wt == 2:
+		switch r.Intn(5) {
+		case 0:
+			f.Data = f.Data[:r.Intn(len(f.Data)+1)]
+		case 1:
+			f.Data = append(append([]byte{}, f.Data...), r.Bytes(r.Range(1, 8))...)
+		case 2:
+			f.Data = nil
+		case 3:
+			f.Num = r.Range(1, 8)
+		default:
+			f.Wt, f.Val = 0, uint64(len(f.Data))
+		}
+	default:
+		f.Val = vcommon.Pick(r, []uint64{0, 1, 2, 1 << 31, 1<<32 - 1, 1 << 32, 1 << 63, f.Val + 1})
+	}
+	return wire.PbSerialize(fs)
+}
+
 const nModes = 7
 
 var modeNames = [nModes]string{"valid", "bitflip", "truncate", "inflate_length", "inflate_count", "random", "splice"}
@@ -667,6 +717,11 @@ func runMode(c *vcommon.Case, d *decoder, mode int) {
 			p := c.R.Intn(len(a))
 			q := p + c.R.Intn(len(a)-p)
 			var m []byte
+			if d.pb && i%2 == 0 {
+				probe(c, d, name, pbMutate(c.R, a, 0))
+				c.Count("pb_field_mutants", 1)
+				continue
+			}
 			switch c.R.Intn(5) {
 			case 0:
 				m = cat(a[:q], a[p:]) // duplicate a[p:q]
@@ -785,6 +840,7 @@ func TestVerifC33(t *testing.T) {
 	r.Floor("roundtrips", 2000)
 	r.Floor("rejected", 20000)
 	r.Floor("dense_messages", 8)
+	r.Floor("pb_field_mutants", 200)
 
 	fc := fixedCorpus()
 	r.Fixed("corpus", len(fc), func(c *vcommon.Case) {
@@ -820,7 +876,7 @@ func TestVerifC33(t *testing.T) {
 		probe(c, d, "dense", in[:len(in)-1])
 	})
 
-	n := r.Scale(len(ds) * nModes * 6)
+	n := r.Scale(len(ds) * nModes * 10)
 	r.Cases("mut", n, func(c *vcommon.Case) {
 		d := &ds[c.Idx%len(ds)]
 		mode := (c.Idx / len(ds)) % nModes
